@@ -47,6 +47,8 @@ VALUE_FAMILIES = [
     T('open-201', [12001, 201130]),
     T('open-204', [1004, 204002, 31021, 1004]),
     T('open-207', [12001, 207001, 12001]),
+    T('open-221', [12001, 1001, 221003, 1002, 10004]),
+    T('open-222', [33007, 1004, 222000, 101001, 31031]),
 ]
 
 # structure-level families: attribute values are assumed not missing (bound), structure bits symbolic
@@ -67,6 +69,8 @@ BITMAP_FAMILIES = [
     T('two-bitmaps', [1004, 12001, 222000, 101002, 31031, 33007, 224000, 101002, 31031, 8023, 224255],
       no_missing=True, max_factor=2),
     T('marker-under-201', [1004, 12001, 201130, 224000, 101002, 31031, 8023, 224255, 201000, 224255], no_missing=True),
+    T('rebuild-over-markers', [1004, 12001, 223000, 101001, 31031, 223255, 235000, 224000, 101003, 31031, 8023, 224255, 224255, 224255],
+      no_missing=True, max_factor=1),
     T('seq-before-bitmap', [301001, 102002, 12001, 2001, 222000, 101003, 31031, 33007], no_missing=True),
 ]
 
